@@ -17,4 +17,62 @@ def run(chk, b, tier):
                  "vs a memoised big-integer DP, each dimension maximised independently. Non-trivial: >=4 reachable objects.",
                  permute=0.3)
     api_delay_stage(chk, b, _O.CHECKOUT_KEYS + (["reference_count"] if "C04" == "C01" else []), "C04", 6 if tier == "quick" else 150)
+    wide_directory_stage(chk, b, tier)
     chk.assumptions += ["reference model and generator trusted; generator self-checked against git"]
+
+
+def _wide_case(arg):
+    """One directory with K subdirectory entries (a few distinct subtrees behind them), itself a subdirectory of the root
+    tree and - in the second variant - the root tree: K sits on the widths a pending-children counter could have."""
+    import os, shutil
+    from .. import gen as G, run as R, parse_out as P
+    K, variant, sz, scratch = arg
+    d = os.path.join(scratch, "wide-%d-%s" % (K, variant))
+    os.makedirs(d)
+    out = {"viol": [], "evals": 0, "K": K}
+    try:
+        b1, b2 = G.Blob(b"leaf-1\n"), G.Blob(b"other leaf\n")
+        leaves = [G.Tree([G.Entry(G.FILE, b"f", b1)]), G.Tree([G.Entry(G.FILE, b"g", b2), G.Entry(G.LINK, b"l", b1)]),
+                  G.Tree([G.Entry(G.TREE, b"in", G.Tree([G.Entry(G.FILE, b"deepest-file", b2)]))])]
+        wide = G.Tree([G.Entry(G.TREE, b"d%06d" % j, leaves[0] if variant == "same" else leaves[j % 3]) for j in range(K)])
+        top = wide if variant == "root" else G.Tree([G.Entry(G.FILE, b"README", b1), G.Entry(G.TREE, b"w", wide)])
+        c = G.Commit(top, [], cts=1500000000, msg=b"wide\n")
+        m = G.Model()
+        m.refs["refs/heads/main"] = c
+        m.commits = [c]
+        gitdir = G.write_model(m, os.path.join(d, "repo"))
+        r = R.sizer(sz, gitdir, ["--json", "--no-progress"], tmpdir=d, timeout=300)
+        out["evals"] += 1
+        if r.timed_out:
+            out["inconc"] = "watchdog fired on the wide-directory case K=%d" % K
+            return out
+        if r.rc != 0:
+            out["viol"].append(("run-failed", {"K": K, "variant": variant, "stderr": r.err[-300:]}))
+            return out
+        js, probs = P.parse_json(r.out)
+        ex = _O.compute([c])
+        bad = _O.compare_numeric(ex, js or {}, _O.CHECKOUT_KEYS)
+        if bad:
+            out["viol"].append(("values-differ-from-recursive-expansion", {"K": K, "variant": variant, "diffs": bad[:7]}))
+    finally:
+        shutil.rmtree(d, ignore_errors=True)
+    return out
+
+
+def wide_directory_stage(chk, b, tier):
+    from .. import run as R
+    ks = [127, 128, 129, 255, 256, 257, 32767, 32768, 65535, 65536, 65537]
+    if tier != "quick":
+        ks += [1000, 4095, 4096, 4097, 16384, 65534, 70001, 131071, 131072, 131073, 200003]
+    jobs = [(K, v, b.sizer(), b.scratchdir()) for K in ks for v in ("mixed", "same", "root")]
+    res = R.pmap(_wide_case, jobs, chk=chk)
+    for r in res:
+        chk.count(r["evals"])
+        if r.get("inconc"):
+            chk.inconc(r["inconc"])
+        for clause, det in r["viol"]:
+            chk.violation("C04/wide-directory-of-subdirectories/" + clause, det)
+        if r["evals"]:
+            chk.nontrivial(("wide", r["K"]))
+    chk.cov["wide_directory_cases"] = len(jobs)
+    chk.cov["wide_directory_entry_counts"] = ks
